@@ -61,7 +61,7 @@ type aRes struct {
 
 var extCode = map[string]uint16{
 	"sni": 0, "alpn": 16, "sv": 43, "ks": 51, "sg": 10, "psk": 41, "gr": 0x0a0a, "x1": 0x1234, "x2": 0x5678, "x9": 0x9999,
-	"ech": 0xfe0d, "eoe": 0xfd00, "echdup": 0xfe0d,
+	"ech": 0xfe0d, "eoe": 0xfd00, "echdup": 0xfe0d, "echdupi": 0xfe0d,
 }
 
 var sniName = map[string]string{
@@ -70,8 +70,49 @@ var sniName = map[string]string{
 var alpnList = map[string][]string{"ao": {"http/1.1"}, "ai": {"h2", "http/1.1"}, "": nil}
 
 func be16(b []byte, v int) []byte { return binary.BigEndian.AppendUint16(b, uint16(v)) }
-func vec8(b, v []byte) []byte    { return append(append(b, byte(len(v))), v...) }
-func vec16(b, v []byte) []byte   { return append(be16(b, len(v)), v...) }
+
+// faultCtx injects one structural fault at the target-th length-prefixed vector the encoder emits.
+type faultCtx struct {
+	target, counter int
+	kind            string // plus1 | minus1 | trunc
+	enabled         bool
+	applied         bool
+}
+
+var encFault *faultCtx
+
+func faultLen(v []byte) (int, []byte) {
+	l := len(v)
+	if f := encFault; f != nil && f.enabled {
+		f.counter++
+		if f.counter == f.target {
+			f.applied = true
+			switch f.kind {
+			case "plus1":
+				l++
+			case "minus1":
+				l--
+			case "trunc":
+				if len(v) > 0 {
+					v = v[:len(v)-1]
+				}
+			}
+		}
+	}
+	return l, v
+}
+func vec8(b, v []byte) []byte {
+	l, v := faultLen(v)
+	return append(append(b, byte(l)), v...)
+}
+func vec16(b, v []byte) []byte {
+	l, v := faultLen(v)
+	return append(be16(b, l), v...)
+}
+func vec24(b, v []byte) []byte {
+	l, v := faultLen(v)
+	return append(append(b, byte(l>>16), byte(l>>8), byte(l)), v...)
+}
 
 func encSNI(name string) []byte {
 	l := []byte{0}
@@ -320,6 +361,8 @@ func (s *sealer) extBody(h *aHello, x aExt, o encOpts, op string, zeroPayloadLen
 			out[0] += 3
 		}
 		return out
+	case "echdupi":
+		return []byte{1}
 	case "echdup":
 		// a second encrypted_client_hello extension: a well-formed outer-type structure with its own payload bytes
 		d := []byte{0, 0, 1, 0, 1, 7}
@@ -351,9 +394,22 @@ func (s *sealer) extBody(h *aHello, x aExt, o encOpts, op string, zeroPayloadLen
 
 // payload seals the encoded inner hello with the AAD recorded in the abstract ciphertext.
 func (s *sealer) payload(ct *aCt, o encOpts, op string) []byte {
+	// structural faults: "structInner" damages the encoded inner hello before sealing; the AAD is the client's
+	// undamaged outer hello in every case
+	var saved bool
+	if encFault != nil {
+		saved = encFault.enabled
+		encFault.enabled = op == "structInner"
+	}
 	pt := s.helloBody(ct.Pt, innerRandom, o, op, -1)
+	if encFault != nil {
+		encFault.enabled = false
+	}
 	snd, _ := s.sender(ct.Kid, ct.Enc, ct.Suite, ct.Info)
 	aad := s.helloBody(ct.Aad, outerRandom, o, op, len(pt)+16)
+	if encFault != nil {
+		encFault.enabled = saved
+	}
 	c, err := snd.Seal(aad, pt)
 	if err != nil {
 		panic(err)
@@ -369,8 +425,8 @@ func (s *sealer) payload(ct *aCt, o encOpts, op string) []byte {
 }
 
 func handshakeRecord(body []byte) []byte {
-	hs := append([]byte{1, byte(len(body) >> 16), byte(len(body) >> 8), byte(len(body))}, body...)
-	return append(be16([]byte{22, 3, 1}, len(hs)), hs...)
+	hs := vec24([]byte{1}, body)
+	return vec16([]byte{22, 3, 1}, hs)
 }
 
 // concretise returns the record carrying the hello.
